@@ -283,6 +283,17 @@ func c10Ramp(c *core.Case, o *core.Outcome) {
 		if r.IntN(4) == 0 {
 			dur = unit * time.Duration(1+r.IntN(100))
 		}
+		if r.IntN(5) == 0 {
+			// long, high-rate ramps
+			dur = time.Duration(1+r.IntN(48)) * time.Hour
+			s, e = r.IntN(2_000_001), r.IntN(2_000_001)
+			if r.IntN(3) == 0 {
+				s = 0
+			}
+		}
+		if s == e {
+			e = s + 1
+		}
 		us := unit.String()
 		if unit == time.Second && r.IntN(2) == 0 {
 			us = "s"
@@ -303,7 +314,7 @@ func c10Ramp(c *core.Case, o *core.Outcome) {
 		}
 		base := time.Date(2024, 5, 1+r.IntN(20), r.IntN(24), r.IntN(60), r.IntN(60), r.IntN(1e9), time.UTC)
 		offs := []time.Duration{0}
-		for q := 2 + r.IntN(6); q > 0; q-- {
+		for q := 2 + r.IntN(10); q > 0; q-- {
 			offs = append(offs, time.Duration(r.Int64N(int64(dur))))
 		}
 		offs = append(offs, dur-1, dur+1, dur+time.Duration(1+r.Int64N(int64(time.Hour))))
